@@ -612,6 +612,25 @@ func (c *classEval) run(list []ast.Stmt, st ceState, k func(ceState), onRet ceRe
 			c.fail(v, "assignment form")
 			return
 		}
+		// x := recv.helper(args): follow the helper; x stands for what it returns
+		if len(v.Rhs) == 1 {
+			if call, ok := ast.Unparen(v.Rhs[0]).(*ast.CallExpr); ok {
+				if fi := c.inlinable(&st, call); fi != nil {
+					lid, _ := v.Lhs[0].(*ast.Ident)
+					c.inline(st, fi, call, func(s2 ceState, ret ast.Expr, _ token.Pos) {
+						s2 = s2.fork()
+						s2.inl = true
+						if lid != nil && ret != nil {
+							if obj := c.info.ObjectOf(lid); obj != nil {
+								s2.env[obj] = ret
+							}
+						}
+						cont(s2)
+					})
+					return
+				}
+			}
+		}
 		st = st.fork()
 		for i := range v.Lhs {
 			c.reads(&st, v.Rhs[i])
